@@ -41,6 +41,28 @@ var raceNo int
 
 const zombieFinding = "C16-upload-overtakes-acknowledged-deletebucket"
 
+// atEntryWhenDeleted: when the DeleteBucket del returned, had the upload up got no further than its entry point (the
+// hook right after its bucket check; its temp file comes later)?
+func atEntryWhenDeleted(res []sched.Result, up, del int) bool {
+	if del < 0 {
+		return false
+	}
+	// the moment the bucket went: when DeleteBucket reached its hook after the removal (its return, failing that)
+	gone := res[del].ReturnAt
+	for k, p := range res[del].Parked {
+		if strings.HasPrefix(p, "delbucket.removed") {
+			gone = res[del].ParkedAt[k]
+		}
+	}
+	last := ""
+	for k, at := range res[up].ParkedAt {
+		if at < gone {
+			last = res[up].Parked[k]
+		}
+	}
+	return last == "" || strings.HasPrefix(last, "put.entry") || strings.HasPrefix(last, "complete.entry") || strings.HasPrefix(last, "version.entry")
+}
+
 var strictR bool
 
 func runRStrict(c caseR) error {
@@ -181,11 +203,13 @@ func execR(c caseR) (overlap bool, err error) {
 	// fails as not empty or the upload fails as no such bucket.
 	lastDel := int64(-1)
 	delAck := false
+	delIdx := -1
 	for i, o := range c.Ops {
 		if o.Kind == "delbucket" && resp[i].Status == 204 {
 			delAck = true
 			if res[i].Return > lastDel {
 				lastDel = res[i].Return
+				delIdx = i
 			}
 		}
 	}
@@ -224,11 +248,14 @@ func execR(c caseR) (overlap bool, err error) {
 				// deletion and re-created the bucket directory through its parent-directory creation. The property
 				// allows only "delete refused" or "upload refused"; nothing is lost, but the bucket now exists without
 				// owner / ACL. Listed finding; an acknowledged object that is gone stays a violation (below).
-				if kf.Open(zombieFinding) && !strictR {
+				// The listed finding is the narrow window between the upload's bucket check and the creation of its
+				// temp file: the upload sat at its entry point when DeleteBucket returned. An upload that already had
+				// its temp file (body received, link under way) must fail when the bucket is taken away.
+				if kf.Open(zombieFinding) && !strictR && atEntryWhenDeleted(res, i, delIdx) {
 					ev.Known(zombieFinding)
 					continue
 				}
-				return overlap, fmt.Errorf("the upload of %q (op%d: %d) and DeleteBucket were both acknowledged; the bucket exists again without having been created%s", key, i, resp[i].Status, hist.String())
+				return overlap, fmt.Errorf("the upload of %q (op%d: %d) and DeleteBucket were both acknowledged; the bucket exists again without having been created (the upload was parked at %v at clock %v, DeleteBucket op%d returned at %d)%s", key, i, resp[i].Status, res[i].Parked, res[i].ParkedAt, delIdx, lastDel, hist.String())
 			}
 			if !present && delAck {
 				return overlap, fmt.Errorf("the upload of %q was acknowledged (op%d: %d) and DeleteBucket was acknowledged too: the object is lost (bucket exists now: %v, re-created: %v)%s", key, i, resp[i].Status, exists, recreated, hist.String())
